@@ -1892,3 +1892,109 @@ func ruleCRASH8(c *Ctx) {
 		c.unres(rule, "ast.Context.CreateMode/call-sites", "", "no call site found")
 	}
 }
+
+// ---- CRASH-9: no panic on what the environment returned ----
+//
+// A `panic` whose controlling condition tests the result (value or error) of a call that leaves the
+// module - the operating system, go/packages, go/types scope lookups, the formatter - crashes lox
+// for reasons that lie in the environment (a directory reached through a symbolic link, an
+// unwritable path, a deleted working directory), where the property demands a diagnostic and exit 1.
+// Pinned tree: fired four times (ParseGo x3, realMain); repaired by 24a5075. Exceptions are
+// conditions on the module's own constant templates.
+var crash9Exceptions = map[string]string{
+	"codegen.renderTemplate": "the templates are constants of the module: Jet parse/execute errors and go/format failures on their rendering are defects of lox, not of the input (covered by the test suite rendering every template)",
+	"parser.hexToRune":       "strconv on at most 8 hex digits validated by the lexer (CRASH-1 / CRASH-3 decide it)",
+}
+
+func ruleCRASH9(c *Ctx) {
+	const rule = "CRASH-9"
+	p := c.Prog
+	n := 0
+	p.ProdFiles(func(pk *packages.Package, f *ast.File) {
+		info := pk.TypesInfo
+		for _, d := range f.Decls {
+			fd, ok := d.(*ast.FuncDecl)
+			if !ok || fd.Body == nil {
+				continue
+			}
+			par := parents(fd)
+			defs := localDefs(info, fd)
+			ast.Inspect(fd.Body, func(m ast.Node) bool {
+				call, ok := m.(*ast.CallExpr)
+				if !ok || builtinName(info, call) != "panic" {
+					return true
+				}
+				n++
+				// variables mentioned by the conditions that lead here
+				var extern *types.Func
+				var via string
+				for _, fct := range pathConds(info, par, call) {
+					ast.Inspect(fct.e, func(k ast.Node) bool {
+						id, ok := k.(*ast.Ident)
+						if !ok || extern != nil {
+							return true
+						}
+						o := info.Uses[id]
+						if o == nil {
+							return true
+						}
+						def := defs[o]
+						if def == nil {
+							def = multiDefCall(info, fd, o)
+						}
+						dc, ok := ast.Unparen(def).(*ast.CallExpr)
+						if !ok {
+							return true
+						}
+						fn := calleeFunc(info, dc)
+						if fn == nil || fn.Pkg() == nil || strings.HasPrefix(fn.Pkg().Path(), modPath) {
+							return true
+						}
+						switch fn.Pkg().Path() {
+						case "strings", "unicode/utf8", "unicode", "slices", "maps", "sort", "bytes", "math", "cmp":
+							return true // pure functions of their arguments
+						}
+						extern, via = fn, id.Name
+						return true
+					})
+				}
+				if extern == nil {
+					return true
+				}
+				key := funcKey(pk, fd)
+				construct := fmt.Sprintf("%s/panic-on(%s)", key, fullName(extern))
+				if why, ok := crash9Exceptions[key]; ok {
+					c.ok(rule, construct, p.Pos(call.Pos()), "exception: %s", why)
+					return true
+				}
+				c.bad(rule, construct, p.Pos(call.Pos()), "panic under a condition on `%s`, the result of %s: a failure of the environment (file system, loaded package, working directory) crashes lox instead of producing a diagnostic and exit status 1", via, fullName(extern))
+				return true
+			})
+		}
+	})
+	if n < 10 {
+		c.unres(rule, "panics", "", "only %d panic calls found in production code; more than 20 were counted by hand", n)
+	}
+	c.ok(rule, "panics-scanned", "", "%d panic calls in production code examined: none is conditioned on a result obtained from outside the module, except the listed exceptions", n)
+}
+
+// multiDefCall: o is defined by `a, o := f(...)` (a tuple assignment, which localDefs does not
+// record); returns the call.
+func multiDefCall(info *types.Info, fd *ast.FuncDecl, o types.Object) ast.Expr {
+	var out ast.Expr
+	ast.Inspect(fd.Body, func(m ast.Node) bool {
+		as, ok := m.(*ast.AssignStmt)
+		if !ok || len(as.Rhs) != 1 || len(as.Lhs) < 2 {
+			return true
+		}
+		for _, l := range as.Lhs {
+			if id, ok := l.(*ast.Ident); ok && (info.Defs[id] == o || info.Uses[id] == o) {
+				if call, ok := as.Rhs[0].(*ast.CallExpr); ok && out == nil {
+					out = call
+				}
+			}
+		}
+		return true
+	})
+	return out
+}
